@@ -346,3 +346,15 @@ package ct
 //@ ensures [must-be-a-json-string] ju.res != nil ==> result != nil && !fb.called
 //@ ensures [otherwise-the-base64-decoders-verdict] ju.res == nil ==> fb.called && result == fb.res
 //@ at fb assert [decodes-the-json-string-into-this-value] fb.d == d && fb.b64 == after(ju, content)
+
+// C05 / C19: a key given in base64 is the PKIX key of exactly the decoded bytes; undecodable base64 is
+// an error and no key.
+//@ func PublicKeyFromB64
+//@ props C05 C19
+//@ site DecodeString#1 as d
+//@ site x509.ParsePKIXPublicKey#1 as pp
+//@ ensures [undecodable-base64-is-no-key] d.res1 != nil ==> result0 == nil && result1 != nil && !pp.called
+//@ ensures [otherwise-the-pkix-parse-of-the-decoded-bytes] d.res1 == nil ==> pp.called && result0 == pp.res0 && result1 == pp.res1
+//@ ensures [a-key-comes-without-error-and-is-well-formed] result1 == nil ==> validKey(result0)
+//@ at d assert [decodes-the-given-string] d.s == b64PubKey
+//@ at pp assert [parses-the-decoded-bytes] pp.derBytes == d.res0
